@@ -2,6 +2,7 @@ import Victron.Model.Proto
 import Victron.Spec.FrameLang
 import Victron.Proofs.Hex
 import Victron.Proofs.Proto
+import Victron.Props.C06
 /-
   C03 — Every transmitted command is a well-formed HEX frame.
   Model: `txFrame` / `tx` (vecommand.go `sendCommand`), `Vd.*` (the driver on a scripted port).
@@ -57,6 +58,65 @@ theorem command_writes_one_frame (σ : Vd) (idle : Bool) (cmd addr : Nat) :
     ∃ k, k ≤ 1 ∧ (σ.veCommand idle cmd addr).1.port.written = List.replicate k (tx cmd addr) ++ σ.port.written ∧
       (σ.veCommand idle cmd addr).1.port.nW = σ.port.nW + 1 :=
   veCommand_written σ idle cmd addr
+
+/-! ### Histories -/
+
+/-- the one frame a call of the public API hands to the port (once per attempt) -/
+def frameOfCall : C06.Call → Bytes
+  | .ping _ => tx 1 0
+  | .deviceId _ => tx 4 0
+  | .command _ c a => tx c a
+  | .getRaw _ a | .getUint _ a | .getInt _ a | .getString _ a => tx 7 a
+
+theorem doCall_written (σ : Vd) (c : C06.Call) :
+    ∃ k, k ≤ 8 ∧ (C06.doCall σ c).1.port.written = List.replicate k (frameOfCall c) ++ σ.port.written := by
+  cases c with
+  | ping i =>
+    obtain ⟨k, hk, hw, _⟩ := σ.sendReceive_written i 1 []
+    exact ⟨k, by omega, by simpa [C06.doCall, Vd.ping, C06.lineEnd_port_eq, frameOfCall, tx, paramFor] using hw⟩
+  | deviceId i =>
+    obtain ⟨k, hk, hw, _⟩ := veCommand_written σ i 4 0
+    exact ⟨k, by omega, by simpa [C06.doCall, Vd.getDeviceId, C06.lineEnd_port_eq, frameOfCall] using hw⟩
+  | command i c a =>
+    obtain ⟨k, hk, hw, _⟩ := veCommand_written σ i c a
+    exact ⟨k, by omega, by simpa [C06.doCall, frameOfCall] using hw⟩
+  | getRaw is a =>
+    obtain ⟨k, hk, hw, _⟩ := veCommandGet_written σ is a
+    exact ⟨k, hk, by simpa [C06.doCall, frameOfCall] using hw⟩
+  | getUint is a =>
+    obtain ⟨k, hk, hw, _⟩ := veCommandGet_written σ is a
+    exact ⟨k, hk, by simpa [C06.doCall, Vd.getUint, C06.lineEnd_port_eq, frameOfCall] using hw⟩
+  | getInt is a =>
+    obtain ⟨k, hk, hw, _⟩ := veCommandGet_written σ is a
+    exact ⟨k, hk, by simpa [C06.doCall, Vd.getInt, C06.lineEnd_port_eq, frameOfCall] using hw⟩
+  | getString is a =>
+    obtain ⟨k, hk, hw, _⟩ := veCommandGet_written σ is a
+    exact ⟨k, hk, by simpa [C06.doCall, Vd.getString, C06.lineEnd_port_eq, frameOfCall] using hw⟩
+
+/-- **Everything the driver writes, over any history of calls on one object**, is a sequence of the calls' own frames:
+    what was asked before — how many registers, in which order, with what outcome — has no influence on the frame written
+    for a call (the model keeps nothing between calls that a frame could be taken from). With `tx_wellformed`: every one
+    of them is a well-formed frame carrying the call's own address. -/
+theorem history_writes (cs : List C06.Call) (σ : Vd) :
+    ∃ ws, (C06.history σ cs).1.port.written = ws ++ σ.port.written ∧ ∀ w ∈ ws, ∃ c ∈ cs, w = frameOfCall c := by
+  have gen : ∀ (cs : List C06.Call) (σ : Vd) (acc : List Bool),
+      ∃ ws, (cs.foldl C06.histStep (σ, acc)).1.port.written = ws ++ σ.port.written ∧ ∀ w ∈ ws, ∃ c ∈ cs, w = frameOfCall c := by
+    intro cs
+    induction cs with
+    | nil => intro σ acc; exact ⟨[], by simp, by simp⟩
+    | cons c cs ih =>
+      intro σ acc
+      obtain ⟨k, _, hw⟩ := doCall_written σ c
+      obtain ⟨ws, h1, h2⟩ := ih (C06.doCall σ c).1 (acc ++ [(C06.doCall σ c).2])
+      refine ⟨ws ++ List.replicate k (frameOfCall c), ?_, ?_⟩
+      · simp only [List.foldl_cons, C06.histStep]
+        rw [h1, hw]; simp
+      · intro w hwm
+        rcases List.mem_append.mp hwm with h | h
+        · obtain ⟨c', hc', e⟩ := h2 w h
+          exact ⟨c', by simp [hc'], e⟩
+        · exact ⟨c, by simp, (List.eq_of_mem_replicate h)⟩
+  exact gen cs σ []
 
 /-- non-vacuity: a concrete frame, `Get 0x0040`, whose check byte is below 0x10 (the case the `%X` defect broke) -/
 example : tx 7 0x0040 = [58, 55, 52, 48, 48, 48, 48, 48, 48, 69, 10] := by decide   -- ":74000000E\n"
